@@ -146,9 +146,6 @@ func (u *Universe) Validate() error {
 		if tx.Cls == "small" && (len(tx.Ins) != 1 || tx.NOut != 1) {
 			return fmt.Errorf("universe %s: the small transaction %d must have one input and one output", u.Name, i+1)
 		}
-		if !u.Standard && tx.Lock != "" && tx.Lock != "none" && tx.Lock != "h0" && tx.Lock != "tpast" {
-			return fmt.Errorf("universe %s: tx %d: lock class %s needs the standardness checks", u.Name, i+1, tx.Lock)
-		}
 	}
 	if u.Retarget {
 		for b, p := range u.SlotParent {
@@ -354,6 +351,16 @@ func BuiltinUniverses() []*Universe {
 				{Ins: ins(fund(0)), Fee: 2000, VSize: 150, Lock: "tfuture"},
 				{Ins: ins(fund(0)), Fee: 1500, VSize: 150, Lock: "h0", Rbf: true},
 			}}),
+		// The same lock classes without the standardness checks (AcceptNonStd, the
+		// regtest / simnet default), non-standard scripts.
+		defaults(Universe{Name: "locknonstd", NFund: 2, SlotParent: []int{0, 1}, MaxOrphans: 1, MaxBlockTxs: 1, Standalone: false,
+			Txs: []TxSpec{
+				{Ins: ins(fund(0)), Fee: 1000, Lock: "tbetween"},
+				{Ins: ins(fund(1)), Fee: 1000, Lock: "h1"},
+				{Ins: ins(out(2, 0)), Fee: 1000},
+				{Ins: ins(fund(0)), Fee: 2000, Lock: "tfuture"},
+				{Ins: ins(fund(1)), Fee: 1500, Lock: "h2"},
+			}}),
 		// Mining shapes: a free transaction, witness transactions (fund coin 2 and
 		// output 1 of t1 are P2WSH), a low fee rate, a dependency chain.
 		defaults(Universe{Name: "mining", NFund: 3, SlotParent: []int{0}, MaxOrphans: 0, MaxBlockTxs: 1, Standalone: false,
@@ -473,6 +480,8 @@ func randomUniverse(rng *rand.Rand, name string, n int) *Universe {
 		tx := TxSpec{NOut: 1 + rng.Intn(2), Fee: fees[rng.Intn(len(fees))], VSize: []int{150, 200, 250}[rng.Intn(3)], Rbf: rng.Intn(2) == 0}
 		if u.Standard {
 			tx.VSize += 100
+		}
+		if u.Standard || rng.Intn(3) == 0 {
 			tx.Lock = locks[rng.Intn(len(locks))]
 		}
 		k := 1
